@@ -14,7 +14,22 @@ All engines are E1 (bounded exhaustive enumeration, no state graph); the oracle 
              byte-identical to BIP173/350 (constant by version), decode inverts.
   templates  5 standard scriptPubKey templates x 4 networks x hashes: address(), address_to_script_pubkey,
              TxOut.to_address, ScriptPubKey.parse(...).address(), distinctness.
-  segwit-sub every single and every double substitution of the data part of segwit addresses: never accepted.
+  segwit-sub every single and every double substitution of the data part of segwit addresses: never accepted
+             (plus single replacements by characters outside the alphabet / by the upper-case form).
+  segwit-malformed  strings with a CORRECT checksum that are still not addresses: every padding value, extra
+             5-bit groups, witness versions 17..31, program lengths 0..42 (thorough 0..52), version-0 lengths
+             other than 20/32, wrong / missing separator, upper and mixed case - through all three decoders.
+  b58addr    every version byte 0..255 x hash lengths {0,1,19,20,21,32} with a correct checksum through the two
+             address-level decoders: accepted => it is a P2PKH/P2SH address of some network, script equal.
+  wif-shape  every prefix byte x secret widths {0,1,31,32,33,40} x suffixes with a correct checksum through
+             PrivateKey.parse.
+  entrypoints  the remaining producers of address / WIF text (S256Point.*address, RedeemScript/WitnessScript
+             .address/.p2sh_address, HDPrivateKey/HDPublicKey .address/.p2*_address/.wif) x 4 networks.
+
+Not asserted (outside the statement, counted as skips where met): the all-upper-case form of a segwit address
+(BIP173: decoders MUST accept; the library rejects), BIP32 semantic validity of extended keys (depth 0 with a
+non-zero parent fingerprint / child number), the default argument of PrivateKey.wif() (it ignores key.compressed);
+buidl.cecc (libsecp256k1 bindings, not importable in this image) carries its own copy of wif()/parse().
 """
 from io import BytesIO
 
@@ -39,6 +54,17 @@ def b58_payload(n, z, kind, seed):
     body = n - z
     if body == 0:
         return b"\x00" * z
+    if kind in ("chk-lead00", "chk-trail00"):
+        # first filler (counter 0, 1, 2, ...) whose 4-byte checksum begins / ends with a zero byte
+        pos = 0 if kind == "chk-lead00" else 3
+        c = 0
+        while True:
+            b = filler(seed, "b58-" + kind, (n * 8 + z) * 4096 + c, body)
+            if b[0] == 0:
+                b = b"\x01" + b[1:]
+            if R.dsha(b"\x00" * z + b)[pos] == 0:
+                return b"\x00" * z + b
+            c += 1
     if kind == "ff":
         b = b"\xff" * body
     elif kind == "01":
@@ -62,6 +88,18 @@ def gen_b58(tier, seed):
                 continue
             for k in kinds:
                 cases.append({"n": n, "z": z, "kind": k, "seed": seed})
+        # every longer leading-zero run 6..n (incl. the all-zero payload of every length)
+        for z in range(6, n + 1):
+            if z == n:
+                cases.append({"n": n, "z": z, "kind": "zero", "seed": seed})
+                continue
+            for k in (["ff", "01", "f0"] if tier == "quick" else kinds):
+                cases.append({"n": n, "z": z, "kind": k, "seed": seed})
+        # payloads whose checksum itself starts / ends with a zero byte
+        for z in range(0, min(2, n - 1) + 1):
+            if n - z >= 2:
+                for k in ("chk-lead00", "chk-trail00"):
+                    cases.append({"n": n, "z": z, "kind": k, "seed": seed})
     return cases
 
 
@@ -730,8 +768,9 @@ def run_segwit_sub(case):
     if standard:
         apis.append(("address_to_script_pubkey", address_to_script_pubkey))
         apis1 = apis + [("TxOut.to_address", lambda s: TxOut.to_address(s, 1))]
-    # doubles: mainnet addresses go through every decoder; tb/bcrt through decode_bech32 (+ address_to_script_pubkey in thorough)
-    apis2 = apis1 if hrp == "bc" else (apis if tier == "thorough" else apis[:1])
+    # doubles: mainnet addresses go through every decoder; tb/bcrt through decode_bech32 and (standard programs)
+    # TxOut.to_address, whose prefix dispatch differs per HRP (+ address_to_script_pubkey in thorough)
+    apis2 = apis1 if (hrp == "bc" or tier == "thorough") else [a for a in apis1 if a[0] != "address_to_script_pubkey"]
     if i == 0:
         got = attempt(decode_bech32, addr)
         exp = [{"bc": "mainnet", "tb": "testnet", "bcrt": "regtest"}[hrp], ver, prog]
@@ -771,6 +810,25 @@ def run_segwit_sub(case):
                         f"{nm} accepts a segwit address obtained from a valid one by substituting {nsub} character(s) of the data part")
         return ok
 
+    # a replacement character from outside the data alphabet: the separator "1", the three excluded letters,
+    # and the upper-case form of the original character (mixed case) - never an address
+    outside = ["1", "b", "i", "o"] + ([ds[i].upper()] if ds[i].upper() != ds[i] else [])
+    n0 = 0
+    for c in outside:
+        s0 = pre + ds[:i] + c + ds[i + 1 :]
+        assert not R.segwit_valid(hrp, s0, strict_v0=False)
+        for nm, fn in apis1:
+            try:
+                r = fn(s0)
+                acc = r is not None and r is not False
+            except Exception:
+                acc = False
+            if acc:
+                vio(res, f"accepted/{nm}/non-alphabet-character", "segwit-sub", case, {"orig": addr, "mutated": s0, "returned": repr(r)}, "rejected",
+                    f"{nm} accepts a segwit address in which one data character was replaced by a character outside the Bech32 alphabet (or by its upper-case form)")
+            else:
+                n0 += 1
+    res.bulk("non-alphabet / mixed-case substitution rejected", n0, 0)  # never reaches the checksum test: trivial
     n1 = n2 = 0
     for d1 in range(1, 32):
         v1 = data[i] ^ d1
@@ -792,13 +850,405 @@ def run_segwit_sub(case):
     return res
 
 
+# =============================================================== shared: verdict comparison for text decoders
+def accepted(fn, s):
+    """(accepted?, value) - False/None/exception are all 'rejected'."""
+    try:
+        r = fn(s)
+    except Exception:
+        return False, None
+    return (r is not None and r is not False), r
+
+
+def check_injective(res, engine, case, api, hits, what):
+    """hits: [(string, network-or-None, result, already_reported)].  Two different accepted strings of one
+    network must not give the same result; a collision that involves a string already reported as wrongly
+    accepted is the same finding and is only counted."""
+    groups = {}
+    for s, net, result, flagged in hits:
+        groups.setdefault((net, result), {}).setdefault(s, flagged)
+    for (net, result), members in groups.items():
+        if len(members) < 2:
+            continue
+        if any(members.values()):
+            res.notes["collisions_explained_by_a_reported_acceptance"] = res.notes.get("collisions_explained_by_a_reported_acceptance", 0) + 1
+        else:
+            vio(res, f"not-injective/{api}", engine, case, {"strings": sorted(members), "result": result}, "distinct results", what)
+            return
+    res.ok(f"{api}: accepted strings -> pairwise distinct results")
+
+
+# =============================================================== segwit-malformed
+HRPS = ("bc", "tb", "bcrt")
+HRP_NET = {"bc": "mainnet", "tb": "testnet", "bcrt": "regtest"}
+EXTRA_GROUPS = ([0], [1], [16], [0, 0], [0, 1], [16, 0])
+WHY_NAMES = {"version": "version-over-16", "no-hrp": "separator", "hrp": "separator"}
+
+
+def seg_verdict(hrp, s, strict_v0):
+    """((version, program), None) when the reference decoder accepts s for this HRP, else (None, reason class)."""
+    try:
+        return R.segwit_decode(hrp, s, strict_v0), None
+    except R.Invalid as e:
+        why = str(e)
+        if why == "padding":
+            # BIP173: an incomplete group "MUST be 4 bits or less" and "MUST be all zeroes": name which rule is broken
+            groups = len(s) - s.rfind("1") - 1 - 7
+            why = "padding-over-4-bits" if (groups * 5) % 8 >= 5 else "nonzero-padding"
+        return None, WHY_NAMES.get(why, why)
+
+
+def gen_segwit_malformed(tier, seed):
+    lens = range(0, 43) if tier == "quick" else range(0, 53)
+    kinds = ["f0"] if tier == "quick" else ["f0", "zeros", "ff"]
+    return [{"hrp": h, "ver": v, "n": n, "kind": k, "seed": seed} for h in HRPS for v in range(32) for n in lens for k in kinds]
+
+
+def malformed_variants(hrp, ver, prog):
+    """[(class, string)]: hand-built data parts with a CORRECT checksum (constant chosen by version), then
+    textual variants of the canonical string that the checksum does not cover."""
+    const = R.const_for_version(ver)
+    g0 = R.regroup(prog, 8, 5, True)
+    canon = R.bech_encode(hrp, [ver] + g0, const)
+    out = [("canonical", canon)]
+    padbits = len(g0) * 5 - 8 * len(prog)
+    for k in range(1, 1 << padbits):
+        out.append(("padding-value", R.bech_encode(hrp, [ver] + g0[:-1] + [g0[-1] | k], const)))
+    for e in EXTRA_GROUPS:
+        out.append(("extra-groups", R.bech_encode(hrp, [ver] + g0 + list(e), const)))
+    body = canon[len(hrp) + 1 :]
+    for c in ("q", "2", "x", "", "11"):
+        out.append(("separator", hrp + c + body))
+    out.append(("uppercase", canon.upper()))
+    out.append(("mixed-case", hrp.upper() + "1" + body))
+    out.append(("mixed-case", hrp + "1" + body.upper()))
+    k = next((j for j, ch in enumerate(body) if j and ch.isalpha()), None)
+    if k is not None:
+        out.append(("mixed-case", hrp + "1" + body[:k] + body[k].upper() + body[k + 1 :]))
+    return out
+
+
+def run_segwit_malformed(case):
+    from buidl.bech32 import decode_bech32
+    from buidl.script import address_to_script_pubkey
+    from buidl.tx import TxOut
+
+    res = Res()
+    hrp, ver, n = case["hrp"], case["ver"], case["n"]
+    prog = prog_bytes(case["kind"], n, case["seed"], "swmal") if n else b""
+    net = HRP_NET[hrp]
+    addr_apis = (
+        ("address_to_script_pubkey", lambda a: address_to_script_pubkey(a).raw_serialize()),
+        ("TxOut.to_address", lambda a: TxOut.to_address(a, 1).script_pubkey.raw_serialize()),
+    )
+    hits = {"decode_bech32": [], "address_to_script_pubkey": [], "TxOut.to_address": []}
+    seen = set()
+    for cls, s in malformed_variants(hrp, ver, prog):
+        if s in seen:
+            continue
+        seen.add(s)
+        lower = s == s.lower()
+        textual = cls in ("separator", "mixed-case")
+        # --- decode_bech32: the generic decoder (any version 0..16, any program length 2..40)
+        want, why = seg_verdict(hrp, s, False)
+        acc, r = accepted(decode_bech32, s)
+        flagged = False
+        if acc and want is None:
+            flagged = True
+            vio(res, f"accepted/decode_bech32/{cls if textual else why}", "segwit-malformed", case, {"string": s, "class": cls, "returned": r}, f"rejected ({why})",
+                "decode_bech32 accepts a string with a correct checksum that BIP173/BIP350 do not allow as a segwit address")
+        elif acc and list(r) != [net, want[0], want[1]]:
+            vio(res, f"wrong-result/decode_bech32/{cls}", "segwit-malformed", case, {"string": s, "returned": r}, [net, want[0], want[1]],
+                "decode_bech32 accepts a valid segwit address but returns another (network, version, program)")
+        elif not acc and want is not None and lower:
+            vio(res, f"rejects-valid/decode_bech32/{cls}", "segwit-malformed", case, {"string": s}, [net, want[0], want[1]],
+                "decode_bech32 rejects a lower-case string that is a valid segwit address (version 0..16, program 2..40 bytes, zero padding)")
+        elif not acc and want is not None:
+            res.skip("all-upper-case form of a valid address is not accepted (BIP173 asks decoders to accept it; the statement does not)")
+        else:
+            res.ok(f"decode_bech32: verdict == reference ({'accepted' if acc else 'rejected'}) [{cls}]", ("d", hrp, ver, n, s) if cls != "canonical" else None)
+        if acc:
+            ident = attempt(lambda: (r[1], bytes(r[2])))
+            hits["decode_bech32"].append((s.lower(), net, repr(r) if isinstance(ident, Rejected) else ident, flagged))
+        # --- address-level decoders: BIP173/350 incl. the version-0 length rule; need not know every witness program
+        want, why = seg_verdict(hrp, s, True)
+        std = want is not None and R.address_decode(s, net) is not None
+        for nm, fn in addr_apis:
+            acc, r = accepted(fn, s)
+            flagged = False
+            if acc and want is None:
+                flagged = True
+                vio(res, f"accepted/{nm}/{cls if textual else why}", "segwit-malformed", case, {"string": s, "class": cls, "script": r}, f"rejected ({why})",
+                    f"{nm} accepts a string with a correct checksum that BIP173/BIP350 do not allow as a segwit address")
+            elif acc and r != R.witness_script_pubkey(*want):
+                vio(res, f"wrong-script/{nm}/{cls}", "segwit-malformed", case, {"string": s, "script": r}, R.witness_script_pubkey(*want),
+                    f"{nm} accepts a valid segwit address but returns a scriptPubKey other than the one it encodes")
+            elif not acc and std and lower:
+                vio(res, f"rejects-valid/{nm}/{cls}", "segwit-malformed", case, {"string": s}, R.witness_script_pubkey(*want),
+                    f"{nm} rejects a valid address of a standard template (P2WPKH / P2WSH / P2TR)")
+            elif not acc and std:
+                res.skip("all-upper-case form of a valid address is not accepted (BIP173 asks decoders to accept it; the statement does not)")
+            else:
+                res.ok(f"{nm}: {'accepted, script == encoded program' if acc else 'rejected'} [{cls}]", (nm, hrp, ver, n, s) if cls != "canonical" else None)
+            if acc:
+                hits[nm].append((s.lower(), net, r, flagged))
+    for nm, h in hits.items():
+        if h:
+            check_injective(res, "segwit-malformed", case, nm, h, f"{nm} maps two different accepted strings of one network to the same witness program")
+    return res
+
+
+# =============================================================== b58addr: version byte x payload length
+B58A_LENS = (0, 1, 19, 20, 21, 32)
+
+
+def gen_b58addr(tier, seed):
+    kinds = ["zeros", "ff"] + [f"f{k}" for k in range(3 if tier == "quick" else 10)]
+    cases = [{"hlen": n, "kind": k, "seed": seed} for n in B58A_LENS for k in (kinds if n else kinds[:1])]
+    cases.append({"hlen": -1, "kind": "none", "seed": seed})  # the empty payload: not even a version byte
+    return cases
+
+
+def run_b58addr(case):
+    from buidl.script import address_to_script_pubkey
+    from buidl.tx import TxOut
+
+    res = Res()
+    n = case["hlen"]
+    if n < 0:
+        payloads = [b""]
+    else:
+        h = {"zeros": b"\x00" * n, "ff": b"\xff" * n}.get(case["kind"])
+        if h is None:
+            h = filler(case["seed"], "b58addr-" + case["kind"], n, n)
+        payloads = [bytes([v]) + h for v in range(256)]
+    apis = (
+        ("address_to_script_pubkey", lambda a: (lambda o: (type(o).__name__, o.raw_serialize()))(address_to_script_pubkey(a))),
+        ("TxOut.to_address", lambda a: (lambda o: (type(o.script_pubkey).__name__, o.script_pubkey.raw_serialize()))(TxOut.to_address(a, 1))),
+    )
+    cname = {"p2pkh": "P2PKHScriptPubKey", "p2sh": "P2SHScriptPubKey"}
+    hits = {nm: [] for nm, _ in apis}
+    for p in payloads:
+        s = R.b58check_encode(p)
+        assert R.b58check_decode(s) == p
+        nets = [x for x in NETS if R.address_decode(s, x) is not None]
+        want = None
+        if nets:
+            t, hh = R.address_decode(s, nets[0])
+            want = (cname[t], R.script_pubkey(t, hh))
+        fam = None if not nets else ("mainnet" if nets == ["mainnet"] else "testnets")
+        cls = "payload-length" if len(p) != 21 else "version-byte"
+        for nm, fn in apis:
+            acc, r = accepted(fn, s)
+            flagged = False
+            if acc and want is None:
+                flagged = True
+                vio(res, f"accepted/{nm}/{cls}", "b58addr", case, {"string": s, "payload": p, "returned": r}, "rejected",
+                    f"{nm} accepts a Base58Check string (checksum correct) that is not an address: "
+                    + ("the payload is not version byte + 20-byte hash" if cls == "payload-length" else "the version byte is not 0x00/0x05/0x6f/0xc4"))
+            elif acc and r != want:
+                vio(res, f"wrong-script/{nm}", "b58addr", case, {"string": s, "returned": r}, want, f"{nm} returns a scriptPubKey other than the one the address encodes")
+            elif not acc and want is not None:
+                vio(res, f"rejects-valid/{nm}", "b58addr", case, {"string": s}, want, f"{nm} rejects a valid P2PKH / P2SH address")
+            else:
+                res.ok(f"{nm}: verdict == reference ({'accepted' if acc else 'rejected'})", (nm, s))
+            if acc:
+                hits[nm].append((s, fam, r[1] if isinstance(r, tuple) else repr(r), flagged))
+    for nm, hh in hits.items():
+        if hh:
+            check_injective(res, "b58addr", case, nm, hh, f"{nm} maps two different accepted Base58 strings of one network to the same scriptPubKey")
+    return res
+
+
+# =============================================================== wif-shape: payload shape with a correct checksum
+WIF_WIDTHS = (0, 1, 31, 32, 33, 40)
+WIF_SUFFIXES = (b"", b"\x00", b"\x01", b"\x02", b"\x01\x01")
+
+
+def gen_wif_shape(tier, seed):
+    return [{"prefix": p, "seed": seed} for p in range(256)]
+
+
+def wif_bodies(seed):
+    out = []
+    for w in WIF_WIDTHS:
+        if w == 0:
+            out.append(("w0", b""))
+            continue
+        out.append((f"w{w}-zero", b"\x00" * w))
+        out.append((f"w{w}-one", b"\x00" * (w - 1) + b"\x01"))
+        out.append((f"w{w}-ff", b"\xff" * w))
+        f = filler(seed, "wif-shape", w, w)
+        out.append((f"w{w}-f0", bytes([f[0] & 0x7F]) + f[1:]))
+        if w == 32:
+            out.append(("w32-n-1", (R.N - 1).to_bytes(32, "big")))
+            out.append(("w32-n", R.N.to_bytes(32, "big")))
+    return out
+
+
+def run_wif_shape(case):
+    from buidl.ecc import PrivateKey
+
+    res = Res()
+    p0 = case["prefix"]
+    hits = []
+    for label, body in wif_bodies(case["seed"]):
+        for suf in WIF_SUFFIXES:
+            payload = bytes([p0]) + body + suf
+            s = R.b58check_encode(payload)
+            ref = R.wif_decode(s)
+            valid = ref is not None and 1 <= ref[0] <= R.N - 1
+            acc, k = accepted(PrivateKey.parse, s)
+            flagged = False
+            if acc and not valid:
+                flagged = True
+                if ref is not None:
+                    cls = "secret-range"
+                elif p0 not in (0x80, 0xEF):
+                    cls = "prefix"
+                elif len(payload) not in (33, 34):
+                    cls = "payload-length"
+                else:
+                    cls = "suffix"
+                vio(res, f"accepted/{cls}", "wif-shape", case, {"string": s, "payload": payload, "secret": getattr(k, "secret", None)}, "rejected",
+                    "PrivateKey.parse accepts a Base58Check string (checksum correct) that is not a WIF key: WIF is prefix 0x80/0xef + 32-byte secret in [1, n-1] + optional 0x01")
+            elif acc:
+                obs = attempt(lambda: (k.secret, bool(k.compressed), k.network == "mainnet"))
+                back = attempt(lambda: k.wif(compressed=k.compressed))
+                if obs != ref:
+                    vio(res, "fields", "wif-shape", case, {"string": s, "parsed": obs}, ref, "parsed (secret, compressed, mainnet?) differ from the payload")
+                elif back != s:
+                    vio(res, "reencode", "wif-shape", case, {"string": s, "reencoded": back}, s, "parse -> wif(compressed=key.compressed) does not reproduce the accepted string")
+                else:
+                    res.ok("valid WIF: parsed fields == payload, re-encodes to itself", (p0, label, suf))
+            elif valid:
+                vio(res, "rejects-valid", "wif-shape", case, {"string": s}, ref, "PrivateKey.parse rejects a valid WIF string")
+            else:
+                res.ok("not a WIF payload: rejected", (p0, label, suf))
+            if acc:
+                ident = attempt(lambda: (k.secret, bool(k.compressed)))
+                hits.append((s, "mainnet" if p0 == 0x80 else "other", ident if not isinstance(ident, Rejected) else repr(k), flagged))
+    if hits:
+        check_injective(res, "wif-shape", case, "PrivateKey.parse", hits, "PrivateKey.parse maps two different accepted strings to the same (secret, compressed) key")
+    return res
+
+
+# =============================================================== entrypoints: every other producer of address / WIF text
+def ep_secrets(tier, seed):
+    out = {"1": 1, "2": 2, "n-1": R.N - 1}
+    for k in range(5 if tier == "quick" else 21):
+        out[f"f{k}"] = int.from_bytes(filler(seed, "entry", k, 32), "big") % (R.N - 1) + 1
+    return out
+
+
+def gen_entrypoints(tier, seed):
+    return [{"label": l, "secret": f"{x:064x}", "network": net, "seed": seed} for l, x in ep_secrets(tier, seed).items() for net in NETS]
+
+
+def run_entrypoints(case):
+    import hashlib
+
+    from buidl import script as bs
+    from buidl.ecc import PrivateKey
+    from buidl.hd import HDPrivateKey, HDPublicKey
+    from mc.ref.ec import SECP
+
+    res = Res()
+    sec, net, seed = int(case["secret"], 16), case["network"], case["seed"]
+    h160 = lambda b: hashlib.new("ripemd160", R.sha256(b)).digest()
+    P = SECP.mulg(sec)
+    secc, secu = SECP.sec(P, True), SECP.sec(P, False)
+    assert secc == R.pubkey_sec(sec) and len(secu) == 65
+    tw = SECP.taproot_tweak(P[0])
+    spk_wpkh = R.script_pubkey("p2wpkh", h160(secc))
+    raw = b"\x21" + secc + b"\xac"  # <pubkey> OP_CHECKSIG, used as redeem script and as witness script
+    spk_wsh = R.script_pubkey("p2wsh", R.sha256(raw))
+    want = {
+        "p2pkh(compressed)": R.address("p2pkh", h160(secc), net),
+        "p2pkh(uncompressed)": R.address("p2pkh", h160(secu), net),
+        "p2wpkh": R.address("p2wpkh", h160(secc), net),
+        "p2sh-p2wpkh": R.address("p2sh", h160(spk_wpkh), net),
+        "p2sh(script)": R.address("p2sh", h160(raw), net),
+        "p2wsh(script)": R.address("p2wsh", R.sha256(raw), net),
+        "p2sh-p2wsh(script)": R.address("p2sh", h160(spk_wsh), net),
+    }
+    if tw is not None:
+        want["p2tr(key path)"] = R.address("p2tr", tw[0][0].to_bytes(32, "big"), net)
+    else:
+        res.skip("taproot tweak undefined for this key")
+    key = (case["label"], net)
+
+    def cmp(group, name, got, exp):
+        if got != exp:
+            vio(res, f"{group}/{name}", "entrypoints", case, got, exp, f"{group}: {name} differs from the reference text for this key and network")
+        else:
+            res.ok(f"{group}: {name} == reference", (group, name) + key)
+
+    pk = attempt(PrivateKey, sec, net)
+    if isinstance(pk, Rejected):
+        vio(res, "construct/PrivateKey", "entrypoints", case, repr(pk), "PrivateKey", "cannot build a PrivateKey for a secret in [1, n-1]")
+        return res
+    pt = pk.point
+    cmp("S256Point", "address(compressed)", attempt(pt.address, compressed=True, network=net), want["p2pkh(compressed)"])
+    cmp("S256Point", "address(uncompressed)", attempt(pt.address, compressed=False, network=net), want["p2pkh(uncompressed)"])
+    cmp("S256Point", "p2wpkh_address", attempt(pt.p2wpkh_address, network=net), want["p2wpkh"])
+    cmp("S256Point", "p2sh_p2wpkh_address", attempt(pt.p2sh_p2wpkh_address, network=net), want["p2sh-p2wpkh"])
+    if tw is not None:
+        cmp("S256Point", "p2tr_address", attempt(pt.p2tr_address, network=net), want["p2tr(key path)"])
+    rs = attempt(bs.RedeemScript, [secc, 0xAC])
+    ws = attempt(bs.WitnessScript, [secc, 0xAC])
+    if attempt(lambda: rs.raw_serialize()) != raw or attempt(lambda: ws.raw_serialize()) != raw:
+        vio(res, "construct/script", "entrypoints", case, repr(rs), raw, "<pubkey> OP_CHECKSIG does not serialise to its bytes")
+    else:
+        cmp("RedeemScript", "address", attempt(rs.address, net), want["p2sh(script)"])
+        cmp("WitnessScript", "address", attempt(ws.address, net), want["p2wsh(script)"])
+        cmp("WitnessScript", "p2sh_address", attempt(ws.p2sh_address, net), want["p2sh-p2wsh(script)"])
+    # HD keys carry the network themselves: built from fields for each of the 4 networks ...
+    cc = filler(seed, "entry-cc", 0, 32)
+    fp = filler(seed, "entry-fp", 0, 4)
+    hd = attempt(lambda: HDPrivateKey(PrivateKey(sec), cc, 1, fp, 1, net))
+    hp = attempt(lambda: HDPublicKey(pt, cc, 1, fp, 1, net))
+    objs = [("HDPrivateKey(fields)", hd, net), ("HDPublicKey(fields)", hp, net)]
+    # ... and parsed from reference-built extended-key strings (mainnet / testnet version bytes)
+    pnet = "mainnet" if net == "mainnet" else "testnet"
+    xs = R.b58check_encode(R.xkey_payload(R.XPRV_VERSIONS["xprv" if net == "mainnet" else "tprv"], 1, fp, 1, cc, b"\x00" + sec.to_bytes(32, "big")))
+    xp = R.b58check_encode(R.xkey_payload(R.XPUB_VERSIONS["xpub" if net == "mainnet" else "tpub"], 1, fp, 1, cc, secc))
+    objs += [("HDPrivateKey.parse", attempt(HDPrivateKey.parse, xs), pnet), ("HDPublicKey.parse", attempt(HDPublicKey.parse, xp), pnet)]
+    for group, o, onet in objs:
+        if isinstance(o, Rejected):
+            vio(res, f"construct/{group}", "entrypoints", case, repr(o), "object", f"{group} fails for a well-formed key")
+            continue
+        exp = lambda t, hh: R.address(t, hh, onet)
+        cmp(group, "address", attempt(o.address), exp("p2pkh", h160(secc)))
+        cmp(group, "p2wpkh_address", attempt(o.p2wpkh_address), exp("p2wpkh", h160(secc)))
+        cmp(group, "p2sh_p2wpkh_address", attempt(o.p2sh_p2wpkh_address), exp("p2sh", h160(spk_wpkh)))
+        if tw is not None:
+            cmp(group, "p2tr_address", attempt(o.p2tr_address), exp("p2tr", tw[0][0].to_bytes(32, "big")))
+        if group.startswith("HDPrivateKey"):
+            cmp(group, "wif", attempt(o.wif), R.wif_encode(sec, True, onet))
+    # every produced text decodes back to the script it was made from
+    back = {
+        "p2pkh(compressed)": R.script_pubkey("p2pkh", h160(secc)), "p2pkh(uncompressed)": R.script_pubkey("p2pkh", h160(secu)),
+        "p2wpkh": spk_wpkh, "p2sh-p2wpkh": R.script_pubkey("p2sh", h160(spk_wpkh)), "p2sh(script)": R.script_pubkey("p2sh", h160(raw)),
+        "p2wsh(script)": spk_wsh, "p2sh-p2wsh(script)": R.script_pubkey("p2sh", h160(spk_wsh)),
+    }
+    if tw is not None:
+        back["p2tr(key path)"] = R.script_pubkey("p2tr", tw[0][0].to_bytes(32, "big"))
+    for name, a in want.items():
+        got = attempt(lambda: bs.address_to_script_pubkey(a).raw_serialize())
+        cmp("address_to_script_pubkey", name, got, back[name])
+    return res
+
+
 # =============================================================== engines
 def engines(tier, seed):
     return [
         Engine(
             "b58", gen_b58, run_b58, kind="E1",
             rule="Base58Check payloads: every length 0..82 x leading-zero run 0..min(5,len) x body kinds {0xff.., 0x01 00.., 0x80 00.., seeded fillers "
-            "(3 quick / 12 thorough)} + all-zero payloads; encode byte-identical to reference, raw_decode_base58/decode_base58 invert, plain encode_base58. "
+            "(3 quick / 12 thorough)} + all-zero payloads; additionally EVERY longer leading-zero run 6..len (body kinds ff, 01 00.., one filler quick / all thorough; "
+            "all-zero payload of every length) and, for runs 0..2, payloads searched (filler counter 0,1,2,..) so that the checksum's first / last byte is 0x00; "
+            "encode byte-identical to reference, raw_decode_base58/decode_base58 invert, plain encode_base58. "
             "Non-trivial = every distinct payload (notes count those with leading zeros)",
         ),
         Engine(
@@ -834,8 +1284,42 @@ def engines(tier, seed):
             "segwit-sub", gen_segwit_sub, run_segwit_sub, kind="E1",
             rule="for each address (quick: bc v0/20B, tb v1/32B, bcrt v16/2B, bcrt v0/20B; thorough: 3 HRPs x {v0/20,v0/32,v1/32,v16/2,v16/40,v2/2} + all-zero and all-ff programs) "
             "ALL single substitutions (len x 31) and ALL double substitutions (C(len,2) x 31^2) of the data part incl. version and checksum characters, through "
-            "decode_bech32 (standard programs: singles also through address_to_script_pubkey and TxOut.to_address; doubles through both for HRP bc, thorough also "
-            "address_to_script_pubkey for tb/bcrt); reference verdict from exact GF(2) syndrome "
-            "tables + full BIP173/350 decoder. Non-trivial = mutated string that still reaches the checksum test (all: HRP, separator, charset and length are intact)",
+            "decode_bech32 (standard programs: singles also through address_to_script_pubkey and TxOut.to_address; doubles through both for HRP bc, through "
+            "TxOut.to_address for tb/bcrt, thorough also address_to_script_pubkey for tb/bcrt); reference verdict from exact GF(2) syndrome "
+            "tables + full BIP173/350 decoder; at every position additionally the replacements '1','b','i','o' and the upper-case form of the original character "
+            "(outside the alphabet / mixed case: rejected by every decoder, counted as trivial). "
+            "Non-trivial = mutated string that still reaches the checksum test (all: HRP, separator, charset and length are intact)",
+        ),
+        Engine(
+            "segwit-malformed", gen_segwit_malformed, run_segwit_malformed, kind="E1",
+            rule="3 HRPs (bc, tb, bcrt) x EVERY 5-bit version value 0..31 x program length 0..42 (thorough 0..52) x program kinds (1 filler quick / + zeros, ff thorough); "
+            "per (hrp, version, program) the data part is built by hand and given a CORRECT checksum (Bech32 for version 0, Bech32m otherwise): canonical, every non-zero "
+            "value of the padding bits, 6 suffixes of extra 5-bit groups ([0],[1],[16],[0,0],[0,1],[16,0]); then text variants of the canonical string the checksum does "
+            "not cover: separator replaced by q/2/x, deleted, doubled; all upper case; upper-case HRP, upper-case data, one upper-case data character. Oracle: reference "
+            "BIP173/BIP350 decoder. decode_bech32: accepts <=> reference accepts (version-0 length rule not applied, as in segwit-rt; upper case: accept optional), "
+            "result == (network, version, program). address_to_script_pubkey / TxOut.to_address: accepts => reference accepts incl. version-0 length rule and script == "
+            "witness scriptPubKey; must accept lower-case P2WPKH/P2WSH/P2TR addresses. Accepted strings of one case -> pairwise distinct results. "
+            "Non-trivial = every non-canonical string x decoder",
+        ),
+        Engine(
+            "b58addr", gen_b58addr, run_b58addr, kind="E1",
+            rule="EVERY version byte 0..255 x hash length {0,1,19,20,21,32} x hash kinds {zeros, ff, 3 fillers quick / 10 thorough} + the empty payload, Base58Check-encoded by the "
+            "reference (checksum correct), through address_to_script_pubkey and TxOut.to_address: accepts <=> the string is a P2PKH/P2SH address of one of the 4 networks "
+            "(21-byte payload, version 0x00/0x05/0x6f/0xc4), class and scriptPubKey == reference; accepted strings of one network -> pairwise distinct scripts. "
+            "Non-trivial = every (string, decoder)",
+        ),
+        Engine(
+            "wif-shape", gen_wif_shape, run_wif_shape, kind="E1",
+            rule="EVERY prefix byte 0..255 x secret field {empty; widths 1,31,32,33,40 x {zero, one, ff.., filler}; 32-byte n-1 and n} x suffix {none, 00, 01, 02, 01 01}, "
+            "Base58Check-encoded by the reference, through PrivateKey.parse: accepts <=> prefix 0x80/0xef, 32-byte secret in [1, n-1], suffix none or 01; parsed fields == "
+            "payload; parse -> wif(compressed=key.compressed) reproduces the string; accepted strings -> pairwise distinct (secret, compressed). Non-trivial = every payload",
+        ),
+        Engine(
+            "entrypoints", gen_entrypoints, run_entrypoints, kind="E1",
+            rule="secrets {1, 2, n-1, 5 fillers quick / 21 thorough} x 4 networks: S256Point.address (compressed, uncompressed), p2wpkh_address, p2sh_p2wpkh_address, "
+            "p2tr_address (BIP341 key path, reference tweak from mc.ref.ec); RedeemScript.address, WitnessScript.address / p2sh_address of <pubkey> OP_CHECKSIG; "
+            "HDPrivateKey / HDPublicKey built from fields with each network and parsed from reference xprv/tprv/xpub/tpub strings: address, p2wpkh_address, "
+            "p2sh_p2wpkh_address, p2tr_address, HDPrivateKey.wif; every reference address text back through address_to_script_pubkey. All compared with the "
+            "reference text for that key and network. Non-trivial = every (producer, method, key, network)",
         ),
     ]
